@@ -89,6 +89,12 @@ func verifHarness_C19_helpers() {
 			c.Next()
 		})
 	}
+	// a middleware may have put a default Content-Type on the response: the helpers that state
+	// their own type replace it (the renderers behind JSON / JSONP / XML keep a type that is already set)
+	presetCT := verifChoice("presetContentType", 2) == 1
+	if presetCT {
+		r.Use(func(c *Context) { c.SetHeader("Content-Type", "application/vnd.api+json") })
+	}
 	nErrors := 0
 	r.GET("/x", func(c *Context) {
 		switch kind {
@@ -156,7 +162,11 @@ func verifHarness_C19_helpers() {
 		verifAssert(ct == "text/csv" && body == payload && nErrors == 0, "Stream: the given content type and every byte the reader delivered")
 	case 5, 6, 7:
 		docs := map[int]string{5: "application/json; charset=utf-8", 6: "application/javascript; charset=utf-8", 7: "application/xml; charset=utf-8"}
-		verifAssert(ct == docs[kind], "encoding helpers set their documented Content-Type")
+		if presetCT {
+			verifAssert(ct == "application/vnd.api+json", "the renderers never override a Content-Type that is already set")
+		} else {
+			verifAssert(ct == docs[kind], "encoding helpers set their documented Content-Type")
+		}
 		verifAssert((nErrors > 0) == unencodable, "an encoding failure is reported through the context's error list (and only then)")
 		if nErrors > 0 {
 			verifCover("C19 encoder failure reported through the error list")
